@@ -236,3 +236,6 @@ def run(col, configs, tier):
         guarded(col, steps, facts)
         guarded(col, DG.rule_digit_decoders, facts)
         guarded(col, rule_empty_after_sign, facts)
+        from rules import extra as X2
+        guarded(col, X2.rule_unchecked_window, facts)
+        guarded(col, X2.rule_sign_in_accumulation, facts)
